@@ -114,21 +114,37 @@ LayoutViols(e) ==
                           : j \in 1 .. Len(e.jobs)}
 
 \* ---- round trip: a torrent created from a directory verifies completely against that same directory
+\* Lines of TLC-generated tree cases (MC_GeometryTree) carry  tree  (paths as component ids, in the order the case was
+\* handed over: reverse walk order),  tlen  (byte length per path, same order; "files" repeats it) and  kind  (creation
+\* argument: "file" | "dir" | "paths"); for them the expected file order is computed HERE (CreatedLens).  Lines of the
+\* seeded random trees carry "files" in the driver's own walk order.
 \* @obligation C02.roundtrip
+TreeLine(e) == "tree" \in DOMAIN e
+ExpLens(e, L) == IF TreeLine(e) THEN CreatedLens(e.tree, e.tlen) ELSE [f \in 1 .. Len(L.files) |-> L.files[f][1]]
+\* (round-trip trees are tens of kilobytes at unit = 1: only the number of pieces is needed, the per-byte oracle is not built)
 RoundTripViols(e) ==
-    LET L  == LayOf(e)
-        np == NP(L)
+    LET L  == [files |-> e.files, pl |-> e.pl, unit |-> e.unit]
+        np == (StartsOf(L, 1, 0)[Len(e.files) + 1] + e.pl * e.unit - 1) \div (e.pl * e.unit)
         AllSet(b) == Len(b) = np /\ \A i \in 1 .. Len(b) : b[i] = 1
     IN  IF e.hang # 0 THEN {<<"C02.hang", 0, 0>>}
         ELSE IF e.pan # 0 THEN {<<"C02.panic", 0, e.pan>>}
         ELSE IF e.acc = 0 THEN {<<"C02.roundtrip.rejected", 0, 0>>}    \* the client rejects its own torrent
+        \* @obligation C02.roundtrip.open  the directory the torrent was created from can be opened as the torrent's storage
+        \* (verr = 4: the source directory, 5: the fresh copy directory; older lines carry no verr)
+        ELSE IF "verr" \in DOMAIN e /\ e.verr # 0
+             THEN {<<"C02.roundtrip.open", 0, e.verr>>}
+                  \cup T(e.ilen = ExpLens(e, L), "C02.roundtrip.files", 0, 0)
         ELSE T(e.np = np, "C02.np", 0, e.np)
-             \cup T(e.ilen = [f \in 1 .. NF(L) |-> L.files[f][1]], "C02.roundtrip.files", 0, 0)
+             \cup T(e.ilen = ExpLens(e, L), "C02.roundtrip.files", 0, 0)
              \cup T(e.hashok = 1, "C02.roundtrip.hashes", 0, 0)
              \cup T(AllSet(e.bits), "C02.roundtrip.verify", 0, 0)
              \cup T(e.existing = 1, "C02.roundtrip.existing", 0, 0)
              \cup T(AllSet(e.cbits), "C02.roundtrip.copyverify", 0, 0)
              \cup T(e.same = 1, "C02.roundtrip.copysame", 0, 0)
+\* a tree line must be a case of the design spec (driver/spec mismatch otherwise: the step is not enabled)
+TreeLineOK(e) == TreeLine(e) => /\ ValidTree(e.tree) /\ KindOK(e.kind, e.tree)
+                                /\ Len(e.tlen) = Len(e.tree)
+                                /\ e.files = [j \in 1 .. Len(e.tlen) |-> <<e.tlen[j], 0>>]
 
 LineViols(e) == IF e.op = "RT" THEN RoundTripViols(e) ELSE LayoutViols(e)
 
@@ -141,6 +157,7 @@ Report(v) == IF v = {} THEN TRUE ELSE PrintT("@@" \o ToJson([l |-> l, v |-> v]))
 
 TrLine ==
     /\ Ev.op \in {"L", "RT"}
+    /\ Ev.op = "RT" => TreeLineOK(Ev)
     /\ LET v == LineViols(Ev)
        IN  /\ viol' = v
            /\ Report(v)
